@@ -168,4 +168,18 @@ example :
     (nlvMarked wES (markAll wES b1)).toOption = some 100000 ∧
     (match Legacy.valueOfLiq wES b1 "SPOT" with | some v => b1.cash + v | none => 0) = 99000 := by decide
 
+/-- mutant witness (F11): long 2 ES at 99/101, the ask is lost (book 95 / –), the position is closed off-market at 90:
+    the repaired marking returns the settlement to cash (NLV 100000 − 2·50·(101 − 90) = 98900); before the repair
+    it stayed in the margin account of a flat position, which the valuation ignores (NLV 99400, margin −500). -/
+example :
+    let b0 : Broker Int := { Broker.init 100000 with ex := exQ 99 101 "ES" }
+    let b1 := transact wES b0 ⟨"ES", 2, 99, 101⟩
+    let b1' : Broker Int := { b1 with ex := b1.ex.step (.quote "ES" 1 (some 95) none) }
+    let b2 := transact wES (markAll wES b1') ⟨"ES", -2, 90, 90⟩
+    let l1 := Legacy.transactF11 wES b0 ⟨"ES", 2, 99, 101⟩
+    let l1' : Broker Int := { l1 with ex := l1.ex.step (.quote "ES" 1 (some 95) none) }
+    let l2 := Legacy.transactF11 wES (Legacy.mark1F11 wES "ES" l1') ⟨"ES", -2, 90, 90⟩
+    (nlvMarked wES (markAll wES b2)).toOption = some 98900 ∧ b2.margin "ES" = 0 ∧
+    (nlvMarked wES l2).toOption = some 99400 ∧ l2.margin "ES" = -500 := by decide
+
 end TV
